@@ -99,6 +99,7 @@ func runScenario(sc *Scenario, replay []simrt.Decision) *outcome {
 	w.sim = sim
 	w.concurrent = true
 	simrt.EnableShared(true)
+	gc0 := numGC()
 	res := sim.Run(func() {
 		for i := range sc.Tasks {
 			c := &taskCtx{id: i}
@@ -110,6 +111,12 @@ func runScenario(sc *Scenario, replay []simrt.Decision) *outcome {
 	})
 	simrt.EnableShared(false)
 	w.concurrent = false
+	if numGC() != gc0 && len(sim.Races) > 0 {
+		// a collection ran during the run (memory limit): freed addresses may have been reused,
+		// the address-keyed race detector cannot be trusted for this run
+		w.probes.Add("race_reports_dropped_gc_during_run", int64(len(sim.Races)))
+		sim.Races = nil
+	}
 	o := &outcome{w: w, res: res, trace: sim.Trace}
 	if sim.Fail != "" {
 		o.trouble = sim.Fail
@@ -597,4 +604,10 @@ func heapBig() bool {
 	var ms runtime.MemStats
 	runtime.ReadMemStats(&ms)
 	return ms.HeapAlloc > 256<<20
+}
+
+func numGC() uint32 {
+	var ms runtime.MemStats
+	runtime.ReadMemStats(&ms)
+	return ms.NumGC
 }
